@@ -2,11 +2,11 @@
 # usage: tools/eval_seed.sh <seed-dir-name> <ID>...   e.g. tools/eval_seed.sh C05-A C05
 # Applies the seeded change to /repo, runs the quick checks, undoes it. Prints one line per check.
 D=/verif/seeded/$1; shift
+trap 'git -C /repo checkout -- .' EXIT INT TERM
 git -C /repo apply "$D/patch.diff" || { echo "$D: patch does not apply"; exit 2; }
 for id in "$@"; do
-  out=$(cd /verif && ./check "$id" quick 2>&1); code=$?
+  out=$(cd /verif && timeout 2400 ./check "$id" quick 2>&1); code=$?
   nv=$(echo "$out" | grep -c "^VIOLATION")
   sig=$(echo "$out" | grep -m1 "sig=" | cut -c1-160)
   echo "$(basename $D) check=$id exit=$code violations=$nv $sig"
 done
-git -C /repo checkout -- .
